@@ -84,7 +84,7 @@ DIM_CONST_SPEC = {'time': _d(T=1), 'length': _d(L=1), 'mass': _d(M=1), 'current'
 # standard prefixed units of `quantities` used for the human-readable round trip, micro-prefixed ones included (their unicode
 # u_symbol 'µm' cannot be parsed back; since the fix 0a550a1 chempy stores the plain `.symbol` 'um')
 HR_UNITS = {'length': ['m', 'cm', 'mm', 'km', 'nm', 'dm', 'um'], 'mass': ['kg', 'g', 'mg'], 'time': ['s', 'ms', 'minute', 'hour'],
-            'current': ['A', 'mA'], 'temperature': ['K'], 'luminous_intensity': ['cd'], 'amount': ['mol', 'mmol', 'umol']}
+            'current': ['A', 'mA'], 'temperature': ['K', 'mK'], 'luminous_intensity': ['cd'], 'amount': ['mol', 'mmol', 'umol']}
 HR_MICRO = {'length': 'um', 'amount': 'umol'}
 
 RTOL = 1e-12
@@ -573,7 +573,9 @@ def _real_reg(reg):
     cu = _chempy()
     out = {}
     for k, e in zip(KEYS, reg):
-        if 'num' in e:
+        if 'numf' in e:
+            out[k] = float(e['numf'])         # 1.0 is NOT the int 1 of the identity test `is integer_one`
+        elif 'num' in e:
             out[k] = e['num']
         elif e['mag'] == 1.0 and len(e['u']) == 1 and e['u'][0][1] == 1:
             out[k] = getattr(cu.default_units, e['u'][0][0])       # the unit object itself, as in SI_base_registry
@@ -621,7 +623,8 @@ class C09(Property):
         'human-readable round trip: that the unit-string parser of quantities resolves the plain symbol of EVERY standard prefixed unit to a unit of the same value '
         '(hypothesis of human_readable_roundtrip) is checked by the oracle on the units of the harness table only',
         'get_physical_dimensionality / default_unit_in_registry / unitless_in_registry on dicts: the code only supports unitless dicts (theorem: {} / AttributeError); nested containers: not modelled',
-        'unit_of on containers (unitOf_list is a lemma, not a Props theorem); Backend/patched_numpy with CONTAINER arguments (scalar arguments have theorems); uncertainty(), '
+        'magnitudes stored in float16/float32/integer dtypes: covered by the correspondence and the exact-ratio oracle at float64 precision (stream `_g_dtype`); the model has no notion of dtype',
+        'unit_of on dicts; Backend/patched_numpy with CONTAINER arguments (scalar arguments have theorems); composition/linearity for NESTED containers (flat containers: compose_linear_containers); uncertainty(), '
         'latex/unicode/html_of_unit, format_string, fold_constants, simplified(): not modelled',
         'compare_equality is not among the helpers the statement lists: two quantities / two numbers have a theorem, quantity vs plain number a quirk witness; None, str, lists, '
         'tuples and dicts are mirrored by the model (compareEqualityC; dicts are compared by their keys only) and compared by the correspondence, no oracle claim, no theorem',
@@ -808,7 +811,7 @@ class C09(Property):
             elif rr < 0.55:
                 entries[i][1], kinds[i] = rng.choice(['m**2', '1/s', 'kg**-1']), 'power'
             elif rr < 0.65:
-                entries[i], kinds[i] = [1, 1], 'one'
+                entries[i], kinds[i] = [rng.choice([1, 1, 3, 2.5]), 1], 'one'          # (factor, 1) -> the plain number factor * 1
             return {'op': 'from_human', 'entries': entries, 'kinds': kinds, 'names': names}
         if r < 0.76:
             return {'op': 'backend_attr'}
@@ -1114,6 +1117,9 @@ class C09(Property):
         elif r < 0.22:
             reg[0] = {'mag': 1.0, 'u': [['m', rng.choice([2, -1, 3])]]}
             kind = 'power'
+        elif r < 0.26:
+            reg[rng.randrange(7)] = rng.choice([{'numf': 1.0}, {'mag': 1.0, 'u': []}])     # 1.0 / 1*dimensionless: not the int 1
+            kind = 'float-one'
         return {'op': 'human_roundtrip', 'reg': reg, 'kind': kind}
 
     def _g_compare(self, rng, tier):
@@ -1321,6 +1327,9 @@ class C09(Property):
             cu = _chempy()
             entries, table = [], {}
             for e in c['reg']:
+                if 'numf' in e:
+                    entries.append({'nf': rat_json(F(e['numf']))})
+                    continue
                 if 'num' in e:
                     entries.append({'n': e['num']})
                     continue
@@ -1507,6 +1516,30 @@ class C09(Property):
         return cu.allclose(_real_arrarg(a, c.get('like_a', like)), _real_arrarg(b, c.get('like_b', like)), rtol=c['rtol'],
                            atol=None if t is None else _real_arrarg(t, like))
 
+    def _allclose_tie(self, c):
+        """is some compared pair within 0.1 % of its limit |a|*rtol + atol (exact arithmetic, broadcast shape)?"""
+        import numpy as np
+        try:
+            if c['op'] == 'allclose_arrays':
+                a, b, t = _arrarg(c['a'], c.get('a_scalar', False)), _arrarg(c['b']), _arrarg(c['atol'])
+                sv = lambda x: (np.array(_si(x[1]), dtype=object) if x[0] == 'scalar' else _nd_si(x[1]))
+                ops = [sv(a), sv(b)] + ([sv(t)] if t is not None else [])
+            else:
+                la = c['a'] if c['op'] == 'allclose_list' else [c['a']]
+                lb = c['b'] if c['op'] == 'allclose_list' else [c['b']]
+                ops = [np.array([_si(x) for x in la], dtype=object), np.array([_si(x) for x in lb], dtype=object)]
+                if c.get('atol') is not None:
+                    ops.append(np.array(_si(c['atol']), dtype=object))
+            arrs = np.broadcast_arrays(*ops)
+        except Exception:
+            return False
+        T = arrs[2].ravel() if len(arrs) == 3 else [0] * arrs[0].size
+        for x, y, tt in zip(arrs[0].ravel(), arrs[1].ravel(), T):
+            lim, dd = abs(x) * F(c['rtol']) + tt, abs(x - y)
+            if lim and F(999, 1000) < dd / lim < F(1001, 1000):
+                return True
+        return False
+
     def _qarray(self, qs):
         """a `quantities` ARRAY (one unit, the first element's) holding the given quantities"""
         import numpy as np
@@ -1522,6 +1555,8 @@ class C09(Property):
     def same(self, m, io, mo):
         c = m['_c']
         op = c['op']
+        if op in ('allclose', 'allclose_list', 'allclose_arrays', 'allclose_u') and io != mo and {io, mo} == {'True', 'False'} and self._allclose_tie(c):
+            return True      # |a-b| sits (within 1e-3) ON the limit: the exact model and float64 may legitimately differ at a tie (the oracle skips the same band)
         try:
             a = json.loads(io)
         except (ValueError, TypeError):
@@ -1791,6 +1826,8 @@ class C09(Property):
             kind = c.get('kind')
             if kind == 'compound':
                 return self._raises(call, (TypeError,))
+            if kind == 'float-one':      # only the int 1 stands for "no unit": a float has no dimensionality (AttributeError), 1*dimensionless no unit object (TypeError)
+                return self._raises(call, (AttributeError, TypeError))
             if kind == 'power':
                 return None          # documented defect outside "registry of standard prefixed units" (exponent dropped); correspondence still runs
             try:
